@@ -158,6 +158,11 @@ class LeanPrinter(ast.NodeVisitor):
         sym = {"real": "ℝ", "cx": "ℂ", "int": "ℤ"}[want]
         if isinstance(node, ast.Constant) and isinstance(node.value, int) and want in ("real", "cx"):
             return "(%d : %s)" % (node.value, sym)
+        if isinstance(node, ast.Call) and isinstance(node.func, ast.Name) and node.func.id == "ite":
+            # push the coercion into the branches
+            return "(if %s then %s else %s)" % (self.p(node.args[0]), self.num(node.args[1], want), self.num(node.args[2], want))
+        if isinstance(node, ast.IfExp):
+            return "(if %s then %s else %s)" % (self.p(node.test), self.num(node.body, want), self.num(node.orelse, want))
         if want == "real" and k == "int":
             return "((%s : ℤ) : ℝ)" % self.p(node)
         if want == "cx" and k == "real":
